@@ -18,10 +18,11 @@ import Sigc.SlotGLemmasFuel
     a slot variable tells the truth (C04);
   * (d) `rep_held_unique`, `live_count_spec`, `owned_has_owner` — functor accounting.
 
-  The model is the library *after* the fixes of findings F10 (a8d1bb0) and F11 (6def444) (docs/SLOTG.md): both
-  assignment operators let the variable refer to the new representation before the old one is deleted.  There is no
-  `xparent` rule any more: `wf_reachable` holds for every program, and `exchange_no_dead_parent` states the F10
-  situation explicitly.
+  The model is the library *after* the fixes of findings F10 (a8d1bb0), F11 (6def444) and F12 (1467ef2)
+  (docs/SLOTG.md): both assignment operators let the variable refer to the new representation before the old one
+  is deleted, and `delete_rep_with_check()` clears `rep_` before it deletes.  There is no `xparent` rule and no
+  rule about what the destination of an assignment owns any more: `wf_reachable` holds for every program;
+  `exchange_no_dead_parent` and `delete_rep_self_owned_safe` state the F10 and F12 situations explicitly.
 -/
 namespace Sigc.SlotG
 open Blk
@@ -130,6 +131,51 @@ example : repOf exF10own 1 = some 2 ∧ repOf exF10own 2 = some 1 ∧
     (apply (.asgS 1 3) exF10own).slots 2 = none ∧ (apply (.asgS 1 3) exF10own).reps 1 = none ∧
     repOf (apply (.asgS 1 3) exF10own) 1 = some 4 ∧
     ((apply (.asgS 1 3) exF10own).reps 4).map (·.parent) = some none := by decide
+
+/-- **F12, the situation itself.**  `delete_rep_with_check()` — what `*d = slot()` (`clrS` on a variable with a
+    representation) and both assignments from an empty source perform — keeps every well-formed state
+    well-formed, whatever the representation of `d` stores: also the functor that keeps `d` itself alive.  The old
+    representation is freed (exactly once: representation identities are never reused and it is gone), and `d`,
+    if it still exists, holds no representation.  None of these operations is refused on live variables. -/
+theorem delete_rep_self_owned_safe {s : State} (hw : WF s) (d : Nat)
+    (he : (deleteRepWithCheck d s).err = false) :
+    (WF (deleteRepWithCheck d s) ∧
+      (∀ r, repOf s d = some r → (deleteRepWithCheck d s).reps r = none) ∧
+      (∀ D', (deleteRepWithCheck d s).slots d = some D' → D'.rep = none)) ∧
+    ((s.slots d).isSome = true → check s (.clrS d) = none ∧
+      (repOf s d ≠ none → apply (.clrS d) s = deleteRepWithCheck d s)) ∧
+    (∀ x, (s.slots d).isSome = true → (s.slots x).isSome = true → repOf s d ≠ repOf s x →
+      emptyVar s x = true →
+      check s (.asgS d x) = none ∧ check s (.masgS d x) = none ∧
+      apply (.asgS d x) s = deleteRepWithCheck d s ∧ apply (.masgS d x) s = deleteRepWithCheck d s) := by
+  refine ⟨deleteRepWithCheck_spec hw d he, ?_, ?_⟩
+  · intro hd
+    have hdd : deadS s d = false := by unfold deadS; cases hx : s.slots d <;> simp_all
+    refine ⟨by simp [check, hdd], ?_⟩
+    intro hr
+    simp only [apply]
+    cases hq : repOf s d with
+    | none => exact absurd hq hr
+    | some q => rfl
+  · intro x hd hx hne hemp
+    have hdd : deadS s d = false := by unfold deadS; cases h : s.slots d <;> simp_all
+    have hdx : deadS s x = false := by unfold deadS; cases h : s.slots x <;> simp_all
+    have hbeq : (repOf s d == repOf s x) = false := by simpa using hne
+    obtain ⟨X, hX⟩ : ∃ X, s.slots x = some X := by cases h : s.slots x <;> simp_all
+    have hXr : repOf s x = X.rep := by simp [repOf, hX]
+    have hbeq' : (repOf s d == X.rep) = false := by rw [← hXr]; exact hbeq
+    refine ⟨by simp [check, hdd, hdx, hbeq], by simp [check, hdd, hdx, hbeq], ?_, ?_⟩ <;>
+      simp [apply, hX, hbeq', hemp]
+
+/-- non-vacuity: the F12 program — `S1` is kept alive by the functor it stores; `*S1 = slot()` is performed, the
+    functor's destruction destroys `S1`, nothing is left; and the same through an assignment from an empty slot -/
+def exF12 : State := run [.mkS0 1, .setS 1 (.own 1 1 none), .mkS0 2]
+
+example : ownedBy exF12 1 = true ∧ repOf exF12 1 = some 0 ∧ check exF12 (.clrS 1) = none ∧
+    (apply (.clrS 1) exF12).err = false ∧ (apply (.clrS 1) exF12).slots 1 = none ∧
+    (apply (.clrS 1) exF12).reps 0 = none ∧ liveCount (apply (.clrS 1) exF12) none = 0 ∧
+    check exF12 (.asgS 1 2) = none ∧ (apply (.asgS 1 2) exF12).slots 1 = none ∧
+    (apply (.masgS 1 2) exF12).reps 0 = none := by decide
 
 /-! ## (b) blocking (C12) and the transfer of `blocked_` by the copy/move operations (C15) -/
 
@@ -579,9 +625,10 @@ theorem live_count_spec (s : State) (fid : Nat) :
         | some R => (match R.fn with | some f => f.fid == fid | none => false)
         | none => false).length := rfl
 
-/-- a slot variable that has a holder is kept alive by a functor copy stored in a **live** slot variable: what
-    is left after the teardown (which destroys every variable that is neither owned nor referred to) are ownership
-    cycles — the real library never frees them either (`shared_ptr` cycle through `slot_rep::functor_`) -/
+/-- a slot variable that has a holder is kept alive by a functor copy stored in a **live** slot variable: an
+    ownership cycle keeps itself alive (the real library does not free it either — a `shared_ptr` cycle through
+    `slot_rep::functor_`) until some slot of the cycle is emptied or a trackable its functor refers to dies; since
+    the fix of F12 emptying (`clrS`) is always possible, which is what the teardown does -/
 theorem owned_has_owner (ops : List Op) (v : Nat) (ho : ownedBy (run ops) v = true) :
     ∃ w r R fid t, repOf (run ops) w = some r ∧ (run ops).reps r = some R ∧ R.fn = some (.own fid v t) ∧
       ∃ V, (run ops).slots v = some V := by
@@ -592,10 +639,12 @@ theorem owned_has_owner (ops : List Op) (v : Nat) (ho : ownedBy (run ops) v = tr
 
 example : ownedBy (run [.mkS0 1, .setS 1 (.own 1 1 none)]) 1 = true ∧
     liveCount (run [.mkS0 1, .setS 1 (.own 1 1 none)]) (some 1) = 1 ∧
-    -- the teardown cannot free the cycle …
+    -- destroying another variable does not free the cycle …
+    liveCount (run [.mkS0 1, .setS 1 (.own 1 1 none), .mkS0 2, .delS 2]) none = 1 ∧
+    -- … the teardown (which empties every variable) does …
     liveCount ((teardownOps [.mkS0 1, .setS 1 (.own 1 1 none)]).foldl (fun s op => stepState op s)
-      (run [.mkS0 1, .setS 1 (.own 1 1 none)])) none = 1 ∧
-    -- … a trackable the functor refers to can
+      (run [.mkS0 1, .setS 1 (.own 1 1 none)])) none = 0 ∧
+    -- … and so does a trackable the functor refers to
     liveCount (run [.mkS0 1, .newT 1, .setS 1 (.own 1 1 (some 1)), .delT 1]) none = 0 := by decide
 
 end Sigc.SlotG
